@@ -15,7 +15,8 @@ EXTENDS Integers, Sequences, TLC, FiniteSets
 CONSTANTS Depth, ReadsResidue
 
 StackPats == {"zero", "ones", "a5", "count", "countm1", "rand"}
-HeapPats == {"zero", "ones", "count"}
+\* residue left in freed blocks of the sizes the call will ask for, and blocks handed out pre-filled
+HeapPats == {"zero", "ones", "count", "fill00", "fillA1", "fill7F", "fillFE"}
 PrevKinds == {"same_api_same_count", "same_api_other_count", "other_api"}
 Calls == {"c1", "c2"}
 
